@@ -455,7 +455,7 @@ fn qubits_text(s: &HashSet<Qubit>) -> Vec<String> {
 fn run(ctx: &mut Ctx) {
     let tier = ctx.tier;
     let (seed, shard) = (ctx.seed, ctx.shard);
-    let n_cases = ctx.share(tier.pick(120_000, 1_000_000));
+    let n_cases = ctx.share(tier.pick(480_000, 4_000_000));
     for k in 0..n_cases {
         let history = gen_history(seed, shard, k);
         let desc = format!(
